@@ -37,6 +37,8 @@ pub struct MtOut {
     pub switches: u64,
     pub parks: u64,
     pub confirms: u64,
+    /// functions in which a CAS succeeded on a list word that had been changed and changed back (ABA)
+    pub aba: Vec<String>,
     pub spurious_fired: u64,
     pub calls: u64,
     pub trace_hash: u64,
@@ -60,6 +62,7 @@ fn strategy_json(s: &Strategy) -> Value {
         Strategy::Sticky(p) => json!({"kind": "sticky", "p": p}),
         Strategy::Targeted => json!({"kind": "targeted"}),
         Strategy::StallBeforeCas(p) => json!({"kind": "stall_before_cas", "p": p}),
+        Strategy::Victim { v, p, lo, hi } => json!({"kind": "victim_stall", "v": v, "p": p, "lo": lo, "hi": hi}),
         Strategy::Pct { prio, change } => json!({"kind": "pct", "prio": prio, "change": change}),
     }
 }
@@ -69,6 +72,7 @@ fn strategy_from(v: &Value) -> Strategy {
         "sticky" => Strategy::Sticky(v["p"].as_u64().unwrap_or(50) as u32),
         "targeted" => Strategy::Targeted,
         "stall_before_cas" => Strategy::StallBeforeCas(v["p"].as_u64().unwrap_or(250) as u32),
+        "victim_stall" => Strategy::Victim { v: v["v"].as_u64().unwrap_or(0) as u32, p: v["p"].as_u64().unwrap_or(100) as u32, lo: v["lo"].as_u64().unwrap_or(20) as u32, hi: v["hi"].as_u64().unwrap_or(300) as u32 },
         "pct" => Strategy::Pct {
             prio: v["prio"].as_array().map(|a| a.iter().map(|x| x.as_u64().unwrap_or(0) as u32).collect()).unwrap_or_default(),
             change: v["change"].as_array().map(|a| a.iter().map(|x| x.as_u64().unwrap_or(0)).collect()).unwrap_or_default(),
@@ -122,6 +126,9 @@ pub enum MtFlavour {
     Lifecycle,
     /// C04: as Safety, with boundary-dense request sizes (around capacity, 2^31, u32::MAX)
     Boundary,
+    /// recycle-heavy: a nearly full arena, a small menu of sizes, mostly alloc / drop, one victim thread stalled
+    /// across whole operations of the others - segments come back at the same offsets (ABA shapes)
+    Recycle,
 }
 
 fn gen_size(rng: &mut Rng, cap: u32) -> u32 {
@@ -150,7 +157,55 @@ fn gen_size_boundary(rng: &mut Rng, cap: u32) -> u32 {
     }
 }
 
+const RECYCLE_SIZES: [u32; 8] = [8, 24, 32, 40, 56, 64, 112, 120];
+
+fn gen_recycle(seed: u64, run: u64) -> MtSpec {
+    let mut rng = Rng::derive(seed, run, 12);
+    let mut cfg = Cfg::random(&mut rng, Some(true), &[Backend::Vec, Backend::Anon], &[1, 1, 2]);
+    cfg.cap = rng.range(300, 900) as u32;
+    cfg.reserved = *rng.pick(&[0u32, 0, 8]);
+    cfg.min_seg = *rng.pick(&[0u32, 1, 8, 8, 8, 20]);
+    cfg.max_align = 8;
+    // set-up: carve the arena into menu-sized blocks, exhaust it, free two to four of them
+    let mut setup = Vec::new();
+    let n_alloc = rng.range(3, 9);
+    for _ in 0..n_alloc {
+        setup.push(Op::Alloc { kind: AllocKind::Bytes, ty: 0, size: *rng.pick(&RECYCLE_SIZES), owned: false, arena: 0 });
+    }
+    setup.push(Op::Fill);
+    for _ in 0..rng.range(1, 4) {
+        setup.push(Op::Drop { h: rng.below(64) as usize });
+    }
+    let n = rng.range(2, 3) as usize + 1;
+    let n = n.min(4);
+    let mut programs = Vec::new();
+    for t in 0..n {
+        let mut prng = Rng::derive(seed, run, 100 + t as u64);
+        let len = prng.range(3, 10);
+        let mut prog = Vec::new();
+        for _ in 0..len {
+            let op = match prng.below(100) {
+                0..=49 => TOp::Alloc { kind: AllocKind::Bytes, ty: 0, size: *prng.pick(&RECYCLE_SIZES), owned: false },
+                50..=54 => TOp::Alloc { kind: AllocKind::Typed, ty: *prng.pick(&[4u8, 9, 10]), size: 0, owned: false },
+                55..=94 => TOp::Drop { h: prng.below(16) as usize },
+                95..=96 => TOp::Rewrite { h: prng.below(16) as usize },
+                _ => TOp::Check { h: prng.below(16) as usize },
+            };
+            prog.push(op);
+        }
+        programs.push(prog);
+    }
+    let strategy = match rng.below(4) {
+        0 => Strategy::StallBeforeCas(*rng.pick(&[250u32, 500])),
+        _ => Strategy::Victim { v: rng.below(n as u64) as u32, p: *rng.pick(&[30u32, 60, 120, 250]), lo: *rng.pick(&[10u32, 40, 80]), hi: *rng.pick(&[150u32, 400, 900]) },
+    };
+    MtSpec { cfg, setup, programs, strategy, sched_seed: rng.next_u64(), spurious: (0, 1), teardown: false, hb: false, schedule: None, spurious_at: None, crash_every: None }
+}
+
 pub fn gen_spec(seed: u64, run: u64, fl: MtFlavour) -> MtSpec {
+    if fl == MtFlavour::Recycle {
+        return gen_recycle(seed, run);
+    }
     let mut rng = Rng::derive(seed, run, 11);
     let freelists: &[u8] = match fl {
         MtFlavour::Liveness => &[1, 2],
@@ -197,13 +252,13 @@ pub fn gen_spec(seed: u64, run: u64, fl: MtFlavour) -> MtSpec {
         let mut prog = Vec::new();
         // weights: alloc_bytes, aligned, typed, drop, detach_forget, rewrite, check, discard, clone, drop_arena, send, recv
         let w: [u32; 12] = match fl {
-            MtFlavour::Safety | MtFlavour::Boundary => [30, 10, 22, 36, 2, 4, 3, 1, 1, 1, 1, 1],
+            MtFlavour::Safety | MtFlavour::Boundary | MtFlavour::Recycle => [30, 10, 22, 36, 2, 4, 3, 1, 1, 1, 1, 1],
             MtFlavour::Liveness => [30, 8, 18, 36, 4, 0, 0, 4, 1, 1, 1, 1],
             MtFlavour::Hb => [28, 8, 18, 34, 2, 4, 2, 1, 4, 4, 5, 5],
             MtFlavour::Lifecycle => [22, 6, 16, 30, 5, 0, 0, 0, 9, 9, 6, 6],
         };
         let owned_pct = match fl {
-            MtFlavour::Safety | MtFlavour::Liveness | MtFlavour::Boundary => 20,
+            MtFlavour::Safety | MtFlavour::Liveness | MtFlavour::Boundary | MtFlavour::Recycle => 20,
             _ => 55,
         };
         for _ in 0..len {
@@ -439,6 +494,7 @@ pub fn run_spec(spec: &MtSpec, record_events: bool) -> MtOut {
     out.switches = st.context_switches;
     out.parks = st.parks;
     out.confirms = st.confirms;
+    out.aba = st.aba.clone();
     out.spurious_fired = st.spurious_fired;
     out.calls = st.calls_done;
     out.trace_hash = st.trace_hash;
